@@ -10,6 +10,44 @@ from . import astdb, report
 LEVELS = {"C05": "proof", "C07": "proof", "C11": "proof", "C19": "proof"}
 
 
+def selftest(pid):
+    """Sensitivity corpus: every mutants/<pid>/*.patch and seeded/*/patch.diff for this property is
+    applied to a scratch copy of /repo/src and must be reported (exit 1). Never affects the verdict."""
+    import glob
+    import json
+    import subprocess
+    from concurrent.futures import ThreadPoolExecutor
+    patches = sorted(glob.glob(os.path.join(astdb.VERIF, "mutants", pid, "*.patch")))
+    for meta in sorted(glob.glob(os.path.join(astdb.VERIF, "seeded", "*", "meta.json"))):
+        try:
+            m = json.load(open(meta))
+        except Exception:
+            continue
+        if m.get("property") == pid and m.get("expected_detected", True):
+            patches.append(os.path.join(os.path.dirname(meta), "patch.diff"))
+    res = {"applied": 0, "detected": 0, "skipped": 0, "missed": [], "broken": []}
+
+    def one(p):
+        r = subprocess.run([os.path.join(astdb.VERIF, "tools", "trypatch.sh"), p, pid, "quick"],
+                           capture_output=True, text=True)
+        return p, r.returncode, r.stdout
+
+    with ThreadPoolExecutor(max_workers=4) as ex:
+        for p, rc, out in ex.map(one, patches):
+            name = os.path.relpath(p, astdb.VERIF)
+            if rc == 3:
+                res["skipped"] += 1
+                continue
+            res["applied"] += 1
+            if rc == 1 and "VIOLATION property=%s" % pid in out:
+                res["detected"] += 1
+            elif rc == 2:
+                res["broken"].append(name)
+            else:
+                res["missed"].append(name)
+    return res
+
+
 def main(argv=None):
     ap = argparse.ArgumentParser()
     ap.add_argument("pid")
@@ -30,6 +68,8 @@ def main(argv=None):
     try:
         prog = astdb.Program()
         mod.run(chk, prog)
+        if a.tier == "thorough" and not os.environ.get("CMIV_REPO"):
+            chk.selftest = selftest(pid)
         return chk.finish()
     except astdb.AnalysisBroken as e:
         print("ANALYSIS-BROKEN property=%s: %s" % (pid, e), file=sys.stderr)
